@@ -11,6 +11,11 @@ CHECKS = {
             "flattened by the real formatter and executed command by command on a reference device (one line per rule and key); the resulting state must equal the "
             "desired configuration and the real second diff/patch on that state must be empty, along the whole chain. Held = every observed execution converged.",
             "Trusted: R1/R2 reference rule selection and the R4 device model (vf/ref). Junos-like and RouterOS formatters are not simulated. Domain restrictions are listed in evidence assumptions.", "4/C01"),
+    "C02": ("reference-model monitor: ACL coverage model R3 judges every executed command and every device line (node identity) after the reference device ran the real patch",
+            "The real _diff_and_patch runs on a full device configuration (owned + foreign rows at every depth) with the combined ACL of 1-3 generators; the emitted commands are executed "
+            "on the reference device, which logs what each command did. Observed: every set/create command and its blocks are ACL-covered; no uncovered line (whose ancestors were never "
+            "removed) is removed or altered; no line covered only by not-deletable rules disappears; applying the ACL beforehand as production does yields the same patch.",
+            "Trusted: R3 (vf/ref/acl.py), R2/R4 (rule selection, device). ACL patterns are key-granular w.r.t. the rulebook; %ordered lists exempt from clause (c).", "4/C02"),
     "C05": ("reference-model monitor (independent offside parser) over exhaustive small scope + random texts",
             "Every text in an exhaustively enumerated small scope (all indentation vectors up to 6/7 lines over columns 0..6, "
             "with comment/blank/section-break insertions) and seeded random longer texts is parsed by the real parse_to_tree "
